@@ -45,6 +45,9 @@ type workerOut struct {
 	Viol      []json.RawMessage `json:"viol"`
 	Infra     string            `json:"infra"`
 	Deadline  bool              `json:"deadline"`
+	Retries   int               `json:"retries"`
+	Skipped   int               `json:"skipped"`
+	LastSkip  string            `json:"last_skip"`
 	MaxPoints int               `json:"max_points"`
 }
 
@@ -54,23 +57,30 @@ func explore(sc clustermc.Scenario, prefix []int, bound int, dl time.Time, out *
 		out.Deadline = true
 		return
 	}
-	x := clustermc.Run(sc, prefix, false)
-	out.Execs++
-	if x.Infra != "" {
-		out.Infra = x.Infra + fmt.Sprintf(" (prefix %v)", prefix)
-		return
-	}
-	if parent != nil {
-		for i := 0; i < len(prefix); i++ {
-			if i >= len(x.Points) || fmt.Sprint(x.Points[i].Enabled) != fmt.Sprint(parent.Points[i].Enabled) {
-				got := "(ended)"
-				if i < len(x.Points) {
-					got = fmt.Sprint(x.Points[i].Enabled)
+	// an execution is a function of its choice list; if a replay does not follow the execution it was taken
+	// from (quiescence was observed too early under load) it is run again; a subtree that still cannot be
+	// replayed is counted as skipped (the run is then not exhaustive), never judged
+	var x *clustermc.Exec
+	for try := 0; try < 3; try++ {
+		x = clustermc.Run(sc, prefix, false)
+		out.Execs++
+		if x.Infra == "" && parent != nil {
+			for i := 0; i < len(prefix); i++ {
+				if i >= len(x.Points) || fmt.Sprint(x.Points[i].Enabled) != fmt.Sprint(parent.Points[i].Enabled) {
+					x.Infra = fmt.Sprintf("replay of prefix %v diverged at step %d from the execution it was taken from", prefix, i)
+					break
 				}
-				out.Infra = fmt.Sprintf("replay of prefix %v diverged at step %d from the execution it was taken from: enabled then %v, now %s", prefix, i, parent.Points[i].Enabled, got)
-				return
 			}
 		}
+		if x.Infra == "" {
+			break
+		}
+		out.Retries++
+	}
+	if x.Infra != "" {
+		out.Skipped++
+		out.LastSkip = x.Infra
+		return
 	}
 	if len(x.Points) > out.MaxPoints {
 		out.MaxPoints = len(x.Points)
@@ -131,6 +141,9 @@ func workerMain(scName, tier string, bound, w, W int, budget time.Duration) {
 	}
 	dl := time.Now().Add(budget)
 	root := clustermc.Run(sc, nil, false)
+	for try := 0; try < 3 && root.Infra != ""; try++ {
+		root = clustermc.Run(sc, nil, false)
+	}
 	if root.Infra != "" {
 		out.Infra = root.Infra
 		enc.Encode(out)
@@ -141,8 +154,12 @@ func workerMain(scName, tier string, bound, w, W int, budget time.Duration) {
 		clustermc.Check(sc, root)
 		emit(root)
 		// determinism: the default execution twice
-		r2 := clustermc.Run(sc, nil, false)
-		if r2.Fingerprint(1<<30) != root.Fingerprint(1<<30) {
+		same := false
+		for try := 0; try < 3 && !same; try++ {
+			r2 := clustermc.Run(sc, nil, false)
+			same = r2.Fingerprint(1<<30) == root.Fingerprint(1<<30)
+		}
+		if !same {
 			out.Infra = "the default execution is not deterministic"
 		}
 	}
@@ -216,7 +233,7 @@ func doReplay(file, tier string) int {
 	return 2
 }
 
-func runBound(sc clustermc.Scenario, tier string, bound, W int, per time.Duration, col *ev.Collector) (execs, maxPoints int, outcomes map[string]int, infra string, deadline bool) {
+func runBound(sc clustermc.Scenario, tier string, bound, W int, per time.Duration, col *ev.Collector) (execs, maxPoints int, outcomes map[string]int, infra string, deadline bool, skipped int) {
 	var mu sync.Mutex
 	var wg sync.WaitGroup
 	outcomes = map[string]int{}
@@ -267,6 +284,7 @@ func runBound(sc clustermc.Scenario, tier string, bound, W int, per time.Duratio
 			if o.Deadline {
 				deadline = true
 			}
+			skipped += o.Skipped
 			for _, vb := range o.Viol {
 				var v struct {
 					Sig, What  string
@@ -302,6 +320,7 @@ func run(tier string) int {
 	totalExecs := 0
 	var perScenario []interface{}
 	distinctOutcomes := 0
+	totalSkipped := 0
 	completedBound := maxBound
 	for b := 1; b <= maxBound; b++ {
 		for si, sc := range scs {
@@ -315,7 +334,11 @@ func run(tier string) int {
 				per = 5 * time.Second
 			}
 			t0 := time.Now()
-			execs, maxPoints, outcomes, infra, deadline := runBound(sc, tier, b, W, per, col)
+			execs, maxPoints, outcomes, infra, deadline, skipped := runBound(sc, tier, b, W, per, col)
+			if skipped > 0 {
+				deadline = true // not complete
+				totalSkipped += skipped
+			}
 			if infra != "" {
 				fmt.Println("INFRA:", infra)
 				col.Finish()
@@ -346,6 +369,7 @@ func run(tier string) int {
 	col.Set("evaluations", totalExecs)
 	col.Set("distinct_nontrivial", distinctOutcomes)
 	col.Set("scenarios", perScenario)
+	col.Set("subtrees_skipped_because_a_replay_diverged_three_times", totalSkipped)
 	col.Set("deviation_bound_completed_for_every_scenario", completedBound)
 	col.Set("exhaustive", completedBound >= 1)
 	col.Set("rule", "stateless depth-first exploration with a deviation bound (iterative context bounding: bound 1 completely, then bound 2, ...) of three real KVNodes of one namespace partition in one process; the explorer owns message delivery (FIFO per link, any order across links), loss, single clock ticks, an election timeout, replica stop/restart on its directory, leadership transfer and the start of each client call; after every event the cluster runs to quiescence (goroutine-state inspection), so an execution is a function of its choice list (every replayed prefix is compared with the execution it was taken from); default = start calls, then deliver on the lowest link; every other choice is a deviation; at the end the cluster is healed and every replica read; oracle: porcupine linearizability of the call/return history (unanswered or failed calls may take effect once or never) with the final reads, and equality of all replicas. 'states' counts complete executions (the search is stateless); 'exhaustive' refers to deviation bound 1, the highest bound completed for every scenario is reported separately; non-trivial = distinct (replies, final data) outcomes")
